@@ -499,6 +499,35 @@ func c13Identities(env *Env, rep *Report, n *int) int {
 			}
 		}
 	}
+	// every field: an identity whose fields all carry distinct values is stored and read back on the next request
+	for _, store := range []string{"cookie", "file"} {
+		for _, u := range []string{"alice", "bob@example.com"} {
+			for _, auth := range []string{"1", "0"} {
+				*n++
+				if !env.mine(*n) {
+					continue
+				}
+				distinct++
+				rep.add("executions", 1)
+				vclock.Reset()
+				app := NewWebApp(WebCfg{Store: store, HostSelection: "roundrobin", Hosts: []string{"target.example:3389"}})
+				b := NewBrowser("10.0.0.1:40000")
+				if rec := b.Do(app, "GET", "/verif-set?user="+urlq(u)+"&auth="+auth); rec.Code != 200 {
+					continue
+				}
+				rec := b.Do(app, "GET", "/verif-get")
+				var got map[string]any
+				json.Unmarshal(rec.Body.Bytes(), &got)
+				want := map[string]any{"user": u, "display": "Display " + u, "domain": "dom-" + u, "email": u + "@mail.example", "authenticated": auth == "1",
+					"auth_time": float64(1700000000), "expiry": float64(1700003600), "custom": "value-" + u, "access_token": "at-" + u}
+				for k, wv := range want {
+					if got[k] != wv {
+						rep.violate("C13/identity-not-restored-unchanged/"+store+"/"+k, fmt.Sprintf("store=%s user=%q authenticated=%s: field %s stored as %v, restored as %v", store, u, auth, k, wv, got[k]), map[string]any{"noreplay": true})
+					}
+				}
+			}
+		}
+	}
 	return distinct
 }
 
